@@ -254,6 +254,41 @@ func phaseHist(c *lib.Ctx) {
 	}
 }
 
+// phaseMany: more ClientID-carrying requests than the hand-over cache holds
+// (1024 entries): every one of them, and a plain request in between, is still
+// attributed to what it carries itself.
+func phaseMany(c *lib.Ctx) {
+	if !c.Mine(5) {
+		return
+	}
+	e, err := newHistEnv()
+	if err != nil {
+		c.EngineError("assembly: " + err.Error())
+		return
+	}
+	defer func() { _ = e.a.Server.Stop(); e.a.Close() }()
+	n := 2600
+	for i := 0; i < n; i++ {
+		o := hop{Kind: "tls", ID: fmt.Sprintf("c%04d", i), Msg: uint16(i)}
+		if i%500 == 499 {
+			o = hop{Kind: "udp", Msg: uint16(i)}
+		}
+		got, _, derr := e.do(o)
+		c.Count("evals", 1)
+		if derr != nil {
+			c.EngineError(fmt.Sprintf("request %d of the long history: %v", i, derr))
+			return
+		}
+		if got != o.ID {
+			c.Violation("history:long:attributed-wrongly:"+o.Kind, fmt.Sprintf("request number %d of one server life (a %s request carrying ClientID %q) was processed and logged under ClientID %q", i+1, o.Kind, o.ID, got),
+				histCase{Phase: "history-long", Text: fmt.Sprintf("%d requests", i+1)})
+			return
+		}
+	}
+	c.Count("long_history_requests", int64(n))
+	c.Distinct("nontrivial", "long-history")
+}
+
 func replayHist(raw json.RawMessage) (string, bool) {
 	var probe struct {
 		Phase string `json:"phase"`
@@ -261,6 +296,9 @@ func replayHist(raw json.RawMessage) (string, bool) {
 	var hs []hop
 	if json.Unmarshal(raw, &hs) != nil || len(hs) == 0 {
 		var hc histCase
+		if json.Unmarshal(raw, &hc) == nil && hc.Phase == "history-long" {
+			return "replay the long history with: bin/check C16 quick", true
+		}
 		if json.Unmarshal(raw, &hc) != nil || hc.Phase != "history" {
 			_ = probe
 			return "", false
